@@ -725,6 +725,71 @@ func c04Windows(c *core.Ctx) {
 	})
 }
 
+// SK payloads whose checksum is VALID but whose content the cipher must refuse (IV only, ciphertext not a block
+// multiple, pad length larger than the plaintext) or whose plaintext is arbitrary - presented to a receiver that
+// builds a key object per datagram and to one that keeps ONE key object for all of them (an SA's lifetime): the
+// n-th datagram must be handled like the first (no panic, no hang, same outcome as with a fresh object).
+func c04ValidChecksum(c *core.Ctx) {
+	c.Family("win-sk-valid-checksum", 3*2*4, func(k *core.Case) {
+		e := newC04env(core.NewRng(uint64(k.Seed), 77))
+		i := k.Index % 3
+		longLived := (k.Index/3)%2 == 1
+		s := e.raws[i].Suite
+		senderInit := k.R.Bool()
+		dir := e.raws[i].Dir(senderInit)
+		shared := e.keyFn(i)()
+		keyFn := e.keyFn(i)
+		if longLived {
+			keyFn = func() *security.IKESAKey { return shared }
+		}
+		mk := func(first uint8, ivct []byte) []byte {
+			hdr := &abs.Msg{ISPI: k.R.U64(), RSPI: k.R.U64(), Major: 2, Exch: 37, MsgID: k.R.U32()}
+			skLen := 4 + len(ivct) + s.ICVLen()
+			w := append(ref.EncodeHeader(hdr, abs.PSK, 28+skLen), first, 0, byte(skLen>>8), byte(skLen))
+			w = append(w, ivct...)
+			mac := ref.HMAC(s.Integ, dir.Ka, w)
+			return append(w, mac[:s.ICVLen()]...)
+		}
+		for n := 0; n <= 70; n++ {
+			var ivct []byte
+			cellS := ""
+			switch {
+			case n%16 == 0 && n >= 32 && k.R.Bool(): // decryptable, pad length octet larger than the plaintext / arbitrary plaintext
+				pt := k.R.Bytes(n - 16)
+				pt[len(pt)-1] = byte(k.R.Pick(len(pt), len(pt)+1, 255, len(pt)-1, 0))
+				iv := k.R.Bytes(16)
+				ct, err := ref.CBCEncrypt(dir.Ke, iv, pt)
+				if err != nil {
+					continue
+				}
+				ivct = append(iv, ct...)
+				cellS = fmt.Sprintf("sk-valid-mac/padlen-%d", clampD(int(pt[len(pt)-1])-len(pt)))
+			default:
+				ivct = k.R.Bytes(n)
+				cellS = fmt.Sprintf("sk-valid-mac/n%%16=%d/blocks=%d", n%16, minI(n/16, 3))
+			}
+			name := fmt.Sprintf("DecodeDecrypt[valid-checksum,fresh-key-object,icv=%d]", s.ICVLen())
+			if longLived {
+				name = fmt.Sprintf("DecodeDecrypt[valid-checksum,one-key-object-for-all,icv=%d]", s.ICVLen())
+			}
+			c04Probe(k, eDecodeDecrypt(name, keyFn, k.R.Bool(), !senderInit), mk(uint8(k.R.Pick(0, 33, 40, 41)), ivct), nil, cellS)
+		}
+		if longLived {
+			// the key object still serves a genuine message afterwards
+			m := &abs.Msg{ISPI: 1, RSPI: 2, Major: 2, Exch: 37, MsgID: 3, Payloads: []abs.Payload{{Kind: abs.PNonce, Data: abs.HB("still alive")}}}
+			wire, err := ref.Protect(m, s, dir, k.R.Bytes(16), k.R.Bytes(12), nil)
+			if err == nil {
+				d, derr, p := libUnprotectWith(wire, nil, shared, !senderInit)
+				if p != nil || derr != nil || !abs.Equal(m, d) {
+					k.Violate("history", "key-object-unusable-after-refused-datagrams", fmt.Sprint(derr, p), M{"suite": s.Name()})
+					return
+				}
+			}
+			k.Count("one_key_object_served_all_datagrams", 1)
+		}
+	})
+}
+
 func clampD(d int) int {
 	if d < -3 {
 		return -3
@@ -1026,12 +1091,13 @@ func c04(c *core.Ctx) {
 		c.Count("sanitizer_build_"+v, 1)
 	}
 	c04Windows(c)
+	c04ValidChecksum(c)
 	c04Mutations(c)
 	for s, i := range siteIndex {
 		c.Count("hook_hits_"+s, int(atomic.LoadInt64(&siteHits[i])))
 	}
 	if variant() == "plain" {
-		c.Require("nested_notify_types_swept", "nested_other_swept", "hook_hits_message.container.decode", "hook_hits_message.sa.proposal", "hook_hits_message.sa.transform", "hook_hits_message.delete.spi",
+		c.Require("one_key_object_served_all_datagrams", "nested_notify_types_swept", "nested_other_swept", "hook_hits_message.container.decode", "hook_hits_message.sa.proposal", "hook_hits_message.sa.transform", "hook_hits_message.delete.spi",
 			"hook_hits_message.cp.attribute", "hook_hits_message.tsi.selector", "hook_hits_message.tsr.selector", "hook_hits_eap.akaprime.attribute", "hook_hits_ike.decrypt.verified")
 	}
 }
